@@ -94,7 +94,7 @@ def strat():
                             text=draw(st.sampled_from([None, "T"]))))
         return dict(regions=out, sorter=draw(st.sampled_from(["smart", "naive"])), use_float=use_float,
                     param=draw(st.sampled_from([0.1, 0.0, 0.05, 0.3, 0.5])), denom=draw(st.sampled_from([10, 1, 3, 50])),
-                    width=draw(st.sampled_from([3000, 100, 1000])), twice=draw(st.booleans()))
+                    width=draw(st.sampled_from([3000, 100, 1000])), twice=draw(st.booleans()), int_lines=draw(st.booleans()))
     return page()
 
 
@@ -107,8 +107,14 @@ def build(case):
         reg = RegionLayout(r["id"], np.asarray(r["polygon"], dtype=dt))
         reg.transcription = r["text"]
         for l in r["lines"]:
-            reg.lines.append(TextLine(id="l%d" % n, baseline=np.asarray(l["baseline"], dtype=np.float64),
-                                      polygon=np.asarray(l["polygon"], dtype=np.float64), heights=[20, 8], transcription=l["text"]))
+            if case.get("int_lines"):
+                # layouts loaded from PAGE XML carry integer coordinates in integer arrays
+                bl = np.round(np.asarray(l["baseline"], dtype=np.float64)).astype(np.int64)
+                pg = np.round(np.asarray(l["polygon"], dtype=np.float64)).astype(np.int64)
+            else:
+                bl = np.asarray(l["baseline"], dtype=np.float64)
+                pg = np.asarray(l["polygon"], dtype=np.float64)
+            reg.lines.append(TextLine(id="l%d" % n, baseline=bl, polygon=pg, heights=[20, 8], transcription=l["text"]))
             n += 1
         pl.regions.append(reg)
     return pl
